@@ -54,7 +54,14 @@ def _exec_checked(profile, case, known):
     ev0 = simfs.EVENTS[0]
     try:
         with lib.knobs(dedup_chunk=case.get('dedup_chunk') if isinstance(case, dict) else None):
-            res = profile.execute(case)
+            if isinstance(case, dict) and case.get('exc_in_flight'):
+                try:
+                    raise LookupError('the caller is handling this unrelated exception')
+                except LookupError:
+                    res = profile.execute(case)
+                res.probe('exception-in-flight')
+            else:
+                res = profile.execute(case)
         if not res.io_events:
             res.io_events = simfs.EVENTS[0] - ev0
     except simfs.NoProgress as exc:
@@ -224,6 +231,10 @@ def make_case(profile, rng, run, tier):
         # swarm knob for every profile: block size of the reader's offset-array comparison (default 100 segments), so
         # that the multi-block paths run on files of a few segments.  Drawn after generation: worlds do not depend on it
         case['dedup_chunk'] = rng.choice([1, 2, 3, 100, 100])
+    if isinstance(case, dict) and 'exc_in_flight' not in case:
+        # the caller is in the middle of handling an unrelated exception (an except block, a finally or __exit__ that
+        # runs because something is propagating): sys.exc_info() is not empty while the library works
+        case['exc_in_flight'] = rng.random() < 0.08
     return case
 
 
